@@ -144,6 +144,7 @@ func ruleAuthGate(r *Run) {
 		nAcc, nRej := 0, 0
 		for pi := range paths {
 			path := &paths[pi]
+			r.at(path)
 			verdict := ""
 			tokOK := false
 			for i, ev := range path.Events {
@@ -200,6 +201,7 @@ func ruleAuthGate(r *Run) {
 	// the gates' client is the one the server registers with (same hdsClient variable in main)
 	checked := false
 	for _, path := range r.Paths(main) {
+		r.at(&path)
 		var args []string
 		for _, ev := range path.Events {
 			if ev.Kind == EvCall && (ev.Callee == verifyTok || ev.Callee == verifyH) {
@@ -247,6 +249,7 @@ func ruleReceiptFlow(r *Run) {
 	queued := 0
 	for pi := range paths {
 		path := &paths[pi]
+		r.at(path)
 		for _, ev := range path.Events {
 			if ev.Kind != EvChanOp || !ev.Send {
 				continue
@@ -311,6 +314,7 @@ func ruleReceiptFlow(r *Run) {
 	nFwd, nDrop := 0, 0
 	for pi := range wpaths {
 		path := &wpaths[pi]
+		r.at(path)
 		verdict := ""
 		var recvIdx = -1
 		for i, ev := range path.Events {
@@ -371,6 +375,7 @@ func ruleReceiptFlow(r *Run) {
 		ecrec := r.P.LookupFunc(pkgEthCrypto, "", "Ecrecover")
 		nOK := 0
 		for _, path := range r.Paths(vf) {
+			r.at(&path)
 			ret := r.retCanon(vf, &path)
 			if len(ret) != 1 || ret[0] != "nil" {
 				continue
